@@ -344,8 +344,8 @@ func pairSeq(ps []kv) pair.Seq[int, int] {
 }
 
 type leafRef struct {
-	given []int // what the harness passed
-	orig  []int // copy taken before
+	given []int // what the harness passed (possibly with spare capacity behind it)
+	orig  []int // copy of the whole backing array, taken before
 }
 
 type buildCtx struct {
@@ -376,8 +376,18 @@ func (b *buildCtx) buildS(n *node) seq.Seq[int] {
 		var given []int
 		if n.Xs != nil {
 			given = slices.Clone(n.Xs)
+			if k := len(n.Xs)*7 + n.id; k%3 == 0 {
+				// a view with spare capacity: the caller's data continues behind len (sentinels 9001...)
+				back := make([]int, len(n.Xs), len(n.Xs)+3)
+				copy(back, n.Xs)
+				full := back[:cap(back)]
+				for i := len(n.Xs); i < len(full); i++ {
+					full[i] = 9001 + i
+				}
+				given = back
+			}
 		}
-		b.leaves = append(b.leaves, leafRef{given: given, orig: slices.Clone(given)})
+		b.leaves = append(b.leaves, leafRef{given: given, orig: slices.Clone(given[:cap(given)])})
 		return seq.FromSlice(given)
 	case "takewhile":
 		return seq.TakeWhile(b.buildS(n.Kids[0]), func(x int) bool { b.see(n.id, x, 0); return pred(n.F, x) })
@@ -488,8 +498,8 @@ func runTree(t *node) {
 			}
 		}
 		for _, l := range b.leaves {
-			if !slices.Equal(l.given, l.orig) {
-				rec.Violate(site+"source-modified", fmt.Sprintf("%s: source slice %v became %v", what, l.orig, l.given), c)
+			if !slices.Equal(l.given[:cap(l.given)], l.orig) {
+				rec.Violate(site+"source-modified", fmt.Sprintf("%s: source slice (whole backing array) %v became %v", what, l.orig, l.given[:cap(l.given)]), c)
 				return false
 			}
 		}
